@@ -228,6 +228,34 @@ def check(prog, run):
                            "`%s` is the content of a StringValue and is used as a %s: an explicitly empty string/description "
                            "is treated like an absent one and is not printed, so the re-parsed tree differs" % (ast.unparse(o), how))
 
+    # ---- D5 no test in a print method relates two slots of the node to each other
+    r5 = run.rule("D5", "no truth test of a print_X method (locals seen through) compares one part of the node with another part of the same "
+                        "node: whether and how a slot is printed is decided by that slot (and constants) alone - a field aliased to its own "
+                        "name, an argument named like its variable, a default equal to the name are different trees from the ones without "
+                        "the alias / the variable / the default, and a printer that merges them does not round-trip", 5)
+    from ..canon import Canon
+    for f in fns:
+        if f.cls is None or not f.name.startswith("print_") or len(f.params) < 2:
+            continue
+        run.looked_at(f)
+        param = f.params[1]
+        cn = Canon(f.node)
+        def mentions(e):
+            return any(isinstance(x, ast.Name) and x.id == param for x in ast.walk(e))
+        for o in _truth_operands(f.node):
+            r5.instance("%s: %s" % (f.qualname, norm_stmt(o)[:60]))
+            try:
+                ce = cn.expr(o)
+            except Exception:
+                ce = o
+            for c in ast.walk(ce):
+                if isinstance(c, ast.Compare) and mentions(c.left) and any(mentions(x) for x in c.comparators):
+                    run.report(r5, "%s:%s:relates-slots(%s)" % (PRINTER, f.qualname, norm_stmt(o)[:80]), f.where(o),
+                               "`%s` compares two parts of the printed node with each other (`%s`): trees that differ only in whether the "
+                               "two parts coincide are printed alike, so one of them does not re-parse to itself"
+                               % (norm_stmt(o)[:80], ast.unparse(c)[:160]))
+                    break
+
     # ---- T1 typed attribute reads in the printer
     from .. import typedrule
     typedrule.run_rule(prog, run, "T1", "lang/printer.py", "printing a parsed tree must not raise", ["py_gql.lang.printer"], 60)
